@@ -50,11 +50,14 @@ func subHeaderGrid() mon.Sub {
 			st := wsx.State(side, ext, frag)
 			for fin := 0; fin < 2; fin++ {
 				for rsv := byte(0); rsv < 8; rsv++ {
-					for m := 0; m < 2; m++ {
+					// m: the Masked flag x the key bytes the header happens to carry. The rule is about the
+					// flag: a key left in a header whose flag was cleared (the README idiom for re-using a
+					// received header) or an all-zero key under a set flag do not change the verdict.
+					for m := 0; m < 4; m++ {
 						for _, l := range lenClasses {
 							c.Count(1)
-							h := ref.Header{Fin: fin == 1, Rsv: rsv, Op: op, Masked: m == 1, Length: l}
-							if h.Masked {
+							h := ref.Header{Fin: fin == 1, Rsv: rsv, Op: op, Masked: m%2 == 1, Length: l}
+							if m == 1 || m == 2 {
 								h.Mask = [4]byte{9, 8, 7, 6}
 							}
 							broken := ref.BrokenRules(h, side, ext, frag)
@@ -83,7 +86,7 @@ func subHeaderGrid() mon.Sub {
 					}
 				}
 			}
-			c.Sample(map[string]interface{}{"opcode": op, "side": side, "extended": ext, "fragmented": frag, "fin x rsv x masked x length-classes": 2 * 8 * 2 * len(lenClasses)})
+			c.Sample(map[string]interface{}{"opcode": op, "side": side, "extended": ext, "fragmented": frag, "fin x rsv x (masked, key bytes) x length-classes": 2 * 8 * 4 * len(lenClasses)})
 		},
 	}
 }
@@ -257,7 +260,7 @@ func main() {
 	mon.Main(&mon.Spec{
 		Property: "C03",
 		Level:    "exploration",
-		Rule: "exhaustive: (a) Fin x Rsv(8) x OpCode(16) x Masked x 7 length classes x side{none,server,client} x extended x fragmented = 43008 (header,state) pairs against the reference rule set (accept iff no rule broken; reported error must name a broken rule), " +
+		Rule: "exhaustive: (a) Fin x Rsv(8) x OpCode(16) x (Masked flag x key bytes zero / non-zero, independently) x 7 length classes x side{none,server,client} x extended x fragmented = 86016 (header,state) pairs against the reference rule set (accept iff no rule broken; reported error must name a broken rule), " +
 			"(b) all 65536 close codes x 9 reasons (valid and invalid UTF-8) against the code classes of the statement, (c) body construction/parsing for all codes x reason lengths (0..130 for a subset in quick, for all codes in thorough), each body modified in place by the caller and built again (results must not share memory); (d) the exported classification predicates for all 256 opcode values and all 65536 status codes. " +
 			"distinct = (opcode, side, extended, fragmented, broken-rule set) / (code range, class, reason kind) classes.",
 		Assumptions: []string{"ref.BrokenRules and ref.CloseCodeClass transcribe the rule list of the property statement", "the exported ErrProtocol* values are mapped one-to-one to rules"},
